@@ -4,19 +4,21 @@ set -euo pipefail
 export GOFLAGS=-mod=mod GOPROXY=off GOSUMDB=off GOTOOLCHAIN=local
 V=${VERIF_ROOT:-$(cd "$(dirname "${BASH_SOURCE[0]}")/.." && pwd)}
 export V
+R=${VERIF_REPO:-/repo}
+export R
 mkdir -p $V/build/bin
 python3 - <<'PY'
 import json, os, glob
 V=os.environ['V']
 rep={}
 for f in sorted(glob.glob(V+'/go/harness/*.go')):
-    rep['/repo/verifharness/'+os.path.basename(f)]=f
+    rep[os.environ['R']+'/verifharness/'+os.path.basename(f)]=f
 # shims: file name encodes the package dir: a__b__name.go -> /repo/a/b/verif_name.go ; ROOT__x.go -> /repo/verif_x.go
 for f in sorted(glob.glob(V+'/go/shims/*.go')):
     parts=os.path.basename(f).split('__')
     d=[p for p in parts[:-1] if p!='ROOT']
-    rep[os.path.join('/repo',*d,'verif_'+parts[-1])]=f
+    rep[os.path.join(os.environ['R'],*d,'verif_'+parts[-1])]=f
 json.dump({'Replace':rep}, open(V+'/build/overlay.json','w'), indent=1)
 PY
-cd /repo
+cd $R
 go build -tags verif -overlay $V/build/overlay.json -o $V/build/bin/harness ./verifharness
